@@ -1,5 +1,6 @@
 """C15 — A coroutine blocked in a hooked call does not stall its event loop (necessary structure)."""
 from rules.common import start
+from rules import wave2
 from rules import timed, abi, hookrules, pool
 
 
@@ -20,4 +21,7 @@ def run(tier):
     # worker, or not returned when a worker ends) makes the pool stop growing before max_size and N sleepers run one after another
     pool.running_rule(run, f, "C15-WORKER-INC", "C15-WORKER-DEC", "C15-WORKER-RMW")
     abi.forward_rule(run, fx["hook/default"], "C15-FORWARD")
+    # clauses added for the wave-2 seeds (rules/wave2.py; DESIGN 12a)
+    wave2.grow_refusal_rule(run, f, "C15-GROW-REFUSAL")
+    wave2.idle_block_rule(run, f, "C15-IDLE-PARK")
     return run.finish()
